@@ -11,6 +11,7 @@ import (
 	"sort"
 	"strings"
 	"sync"
+	"sync/atomic"
 	"time"
 
 	tcpip "github.com/brewlin/net-protocol/protocol"
@@ -31,8 +32,8 @@ import (
 func init() {
 	engine.Register(&engine.Check{
 		ID:         "C20",
-		Technique:  "exhaustive enumeration of the request / message input product through the real bundled HTTP and WebSocket code over the real stack in the deterministic world (frames pumped at a quiescence barrier), compared with what was sent and with an independent RFC 6455 frame codec and accept-key computation",
-		Rule:       "HTTP: methods {GET,HEAD,POST,PUT} x 4 paths (3 registered, 1 not) x all subsets of a 4-header menu x bodies {empty, 1 byte, 1 KiB, largest that fits one segment}; sequences of <=3 requests on fresh connections; WebSocket: accept key for 8 client keys; every message length 0..130 and 65530..65540 plus {200 KiB, 300 KiB}, unmasked (bundled client) and masked with keys {00000000, ffffffff, 01020304, 80000001} (raw client), sequences of <=3 messages in both directions; distinct = distinct input tuple; all non-trivial",
+		Technique:  "exhaustive enumeration of the request / message input product through the real bundled HTTP and WebSocket code over the real stack in the deterministic world (frames pumped at a quiescence barrier; the pacing of application reads against segment arrival enumerated as environment choices), compared with what was sent and with an independent RFC 6455 frame codec and accept-key computation",
+		Rule:       "HTTP: methods {GET,HEAD,POST,PUT} x 4 paths (3 registered, 1 not) x all subsets of a 4-header menu x bodies {empty, 1 byte, 1 KiB, largest that fits one segment}; sequences of <=3 requests on fresh connections; WebSocket: accept key for 8 client keys; every message length 0..130 and 65530..65540 plus {200 KiB, 300 KiB}, unmasked (bundled client) and masked with keys {00000000, ffffffff, 01020304, 80000001} (raw client), sequences of <=3 messages in both directions; pacing: for 2-message exchanges (single- and multi-segment, with and without server pushes) every vector over {at once, after 1 frame, after 2 frames, when idle} for the server's three reads x client reads {at once, when idle} x frames delivered {1, 2, all} per barrier x pipelined / lock-step client; distinct = distinct input tuple and pacing; all non-trivial",
 		Assumes:    []string{"bodies and header values are in the grammar the bundled parser carries (no ': ' and no CRLF inside)", "a request fits one TCP segment (the HTTP layer reads a message with a single receive); MTU 65535 on the loopback wire"},
 		Jobs:       c20Jobs,
 		Run:        c20Run,
@@ -59,15 +60,75 @@ var (
 	c20WSPush [][]byte // messages the server pushes first
 )
 
+// Application pacing: the handler (before every ReadData) and the client goroutine (before
+// every Recv) pass a gate. The explorer decides per gate whether the application gets to run
+// at once (0), only after k more frames have been delivered (k > 0), or only when nothing
+// else can move (-1): "the application is slow" is an environment answer like any other.
+type c20Gate struct {
+	mu      sync.Mutex
+	idx     int
+	policy  []int
+	pending chan struct{}
+	need    int
+	at      int64
+}
+
+func (g *c20Gate) reset(policy []int) {
+	g.mu.Lock()
+	g.idx, g.policy, g.pending = 0, policy, nil
+	g.mu.Unlock()
+}
+
+func (g *c20Gate) pass() {
+	g.mu.Lock()
+	i := g.idx
+	g.idx++
+	mode := 0
+	if i < len(g.policy) {
+		mode = g.policy[i]
+	}
+	if mode == 0 {
+		g.mu.Unlock()
+		return
+	}
+	ch := make(chan struct{})
+	g.pending, g.need, g.at = ch, mode, atomic.LoadInt64(&c20Delivered)
+	g.mu.Unlock()
+	<-ch
+}
+
+// due releases the gate if its condition holds (idle = nothing else can move).
+func (g *c20Gate) due(idle bool) bool {
+	g.mu.Lock()
+	defer g.mu.Unlock()
+	if g.pending == nil {
+		return false
+	}
+	if idle || (g.need > 0 && atomic.LoadInt64(&c20Delivered)-g.at >= int64(g.need)) {
+		close(g.pending)
+		g.pending = nil
+		return true
+	}
+	return false
+}
+
+var (
+	c20Delivered int64
+	c20SGate     c20Gate
+	c20CGate     c20Gate
+)
+
 const c20Port = 8080
 
 var c20HeaderMenu = [][2]string{{"X-Token", "abc123"}, {"Content-Type", "text/plain"}, {"X-Empty-Like", "-"}, {"Accept-Language", "de"}}
 
 type c20World struct {
-	w          *World
-	n          *Node
-	frames     int
-	tcpPayload []byte // concatenated TCP payload server->client of the last exchange (status line check)
+	w                *World
+	n                *Node
+	frames           int
+	burst            int    // frames delivered between two barriers (1 = the application runs after every frame; 0 = all in flight)
+	upgradeCoalesced bool   // the 101 response and a later server frame were delivered before the client could run
+	tcpPayload       []byte // concatenated TCP payload server->client of the last exchange (status line check)
 }
 
 func c20RegisterHandlers(srv *http.Server) {
@@ -101,6 +162,7 @@ func c20RegisterHandlers(srv *http.Server) {
 				c.SendData(m)
 			}
 			for i := 0; i < n; i++ {
+				c20SGate.pass()
 				d, err := c.ReadData()
 				if err != nil {
 					return
@@ -110,6 +172,7 @@ func c20RegisterHandlers(srv *http.Server) {
 				c20Mu.Unlock()
 				c.SendData(d)
 			}
+			c20SGate.pass()
 			c.ReadData() // wait for the close frame
 		})
 	})
@@ -118,7 +181,7 @@ func c20RegisterHandlers(srv *http.Server) {
 func c20NewWorld() *c20World {
 	w := NewWorld()
 	ScriptRand(11, 22, 33, 44, 55, 66)
-	c := &c20World{w: w}
+	c := &c20World{w: w, burst: 1}
 	c.n = w.AddNode(NodeCfg{Name: "S", V4: []tcpip.Address{addrA4}, MTU: 65535})
 	srv := http.NewHTTP("tap-unused", "10.0.0.0/24", "10.0.0.1", fmt.Sprint(c20Port))
 	c20RegisterHandlers(srv)
@@ -129,20 +192,40 @@ func c20NewWorld() *c20World {
 
 // pump delivers every frame back to the same stack until done() or nothing moves any more.
 func (c *c20World) pump(done func() bool) bool {
-	for i := 0; i < 200000; i++ {
+	for i := 0; i < 400000; i++ {
 		c.w.Settle()
 		if done() {
 			return true
 		}
+		if c20SGate.due(false) || c20CGate.due(false) {
+			continue
+		}
 		fl := c.w.InFlight()
 		if len(fl) > 0 {
-			f := fl[0]
-			c.w.Take(f)
-			c.frames++
-			if d, err := DecodeFrame(f); err == nil && d.TCP != nil && d.TCP.SrcPort == c20Port {
-				c.tcpPayload = append(c.tcpPayload, d.TCP.Payload...)
+			n := c.burst
+			if n <= 0 || n > len(fl) {
+				n = len(fl)
 			}
-			c.w.Deliver(f, c.n, 1)
+			saw101 := false
+			for _, f := range fl[:n] {
+				c.w.Take(f)
+				c.frames++
+				atomic.AddInt64(&c20Delivered, 1)
+				if d, err := DecodeFrame(f); err == nil && d.TCP != nil && d.TCP.SrcPort == c20Port {
+					c.tcpPayload = append(c.tcpPayload, d.TCP.Payload...)
+					if saw101 && len(d.TCP.Payload) > 0 {
+						c.upgradeCoalesced = true
+					}
+					if bytes.HasPrefix(d.TCP.Payload, []byte("HTTP/1.1 101")) {
+						saw101 = true
+					}
+				}
+				p := c.n.Ports[1]
+				p.disp.DeliverNetworkPacket(p, f.SrcMAC, f.DstMAC, f.Proto, chunked(f.Data))
+			}
+			continue
+		}
+		if c20SGate.due(true) || c20CGate.due(true) {
 			continue
 		}
 		if !vtime.FireNext() {
@@ -367,10 +450,32 @@ type c20WS struct {
 	Masked bool   // raw client with masking
 	Key    uint32 // masking key
 	WSKey  string // Sec-WebSocket-Key (raw client)
+	// pacing (see c20Gate)
+	Pipeline bool  `json:",omitempty"` // the client sends all messages before it reads the first echo
+	Burst    int   `json:",omitempty"` // 0 = one frame per barrier, k = k frames, -1 = everything in flight
+	SGate    []int `json:",omitempty"`
+	CGate    []int `json:",omitempty"`
 }
 
 func (c *c20World) doWS(q c20WS) *c20Fail {
 	name := fmt.Sprintf("websocket lens %v push %v masked=%v key %08x", q.Lens, q.Push, q.Masked, q.Key)
+	if q.Pipeline || q.Burst != 0 || q.SGate != nil || q.CGate != nil {
+		name += fmt.Sprintf(" pipelined=%v burst=%d server-gates=%v client-gates=%v", q.Pipeline, q.Burst, q.SGate, q.CGate)
+	}
+	c20SGate.reset(q.SGate)
+	c20CGate.reset(q.CGate)
+	c.upgradeCoalesced = false
+	c.burst = 1
+	if q.Burst > 0 {
+		c.burst = q.Burst
+	} else if q.Burst < 0 {
+		c.burst = 0
+	}
+	defer func() {
+		c.burst = 1
+		c20SGate.reset(nil)
+		c20CGate.reset(nil)
+	}()
 	var msgs, pushes [][]byte
 	for i, l := range q.Lens {
 		msgs = append(msgs, c20Msg(l, i))
@@ -401,17 +506,29 @@ func (c *c20World) doWS(q c20WS) *c20Fail {
 				return
 			}
 			for i, p := range pushes {
+				c20CGate.pass()
 				got, err := cl.Recv()
 				if err != nil || got != string(p) {
 					fail = &c20Fail{"ws-push", name + fmt.Sprintf(": pushed message %d (%d bytes) received as %q (%v)", i, len(p), clipS(got), err)}
 					return
 				}
 			}
-			for i, m := range msgs {
-				if err := cl.Push(string(m)); err != nil {
-					fail = &c20Fail{"ws-send", name + ": " + err.Error()}
-					return
+			if q.Pipeline {
+				for _, m := range msgs {
+					if err := cl.Push(string(m)); err != nil {
+						fail = &c20Fail{"ws-send", name + ": " + err.Error()}
+						return
+					}
 				}
+			}
+			for i, m := range msgs {
+				if !q.Pipeline {
+					if err := cl.Push(string(m)); err != nil {
+						fail = &c20Fail{"ws-send", name + ": " + err.Error()}
+						return
+					}
+				}
+				c20CGate.pass()
 				got, err := cl.Recv()
 				if err != nil || got != string(m) {
 					fail = &c20Fail{"ws-echo", name + fmt.Sprintf(": message %d (%d bytes) came back as %q (%v)", i, len(m), clipS(got), err)}
@@ -431,12 +548,17 @@ func (c *c20World) doWS(q c20WS) *c20Fail {
 		t.Write([]byte(req))
 		var buf []byte
 		readMore := func() bool {
-			b, err := t.Read()
-			if err != nil && len(b) == 0 {
-				return false
+			for {
+				b, err := t.Read()
+				if len(b) == 0 && err == error(tcpip.ErrWouldBlock) {
+					continue // woken by a notification whose data an earlier read already took
+				}
+				if err != nil && len(b) == 0 {
+					return false
+				}
+				buf = append(buf, b...)
+				return true
 			}
-			buf = append(buf, b...)
-			return true
 		}
 		for !bytes.Contains(buf, []byte("\r\n\r\n")) {
 			if !readMore() {
@@ -477,6 +599,7 @@ func (c *c20World) doWS(q c20WS) *c20Fail {
 			}
 		}
 		for k, p := range pushes {
+			c20CGate.pass()
 			got, f := next()
 			if f != nil {
 				fail = f
@@ -489,8 +612,16 @@ func (c *c20World) doWS(q c20WS) *c20Fail {
 		}
 		var key [4]byte
 		binary.BigEndian.PutUint32(key[:], q.Key)
+		if q.Pipeline {
+			for _, m := range msgs {
+				t.Write(wsFrame(m, true, key, 1))
+			}
+		}
 		for k, m := range msgs {
-			t.Write(wsFrame(m, true, key, 1))
+			if !q.Pipeline {
+				t.Write(wsFrame(m, true, key, 1))
+			}
+			c20CGate.pass()
 			got, f := next()
 			if f != nil {
 				fail = f
@@ -512,12 +643,20 @@ func (c *c20World) doWS(q c20WS) *c20Fail {
 			return false
 		}
 	}
+	swallowed := func(f *c20Fail) *c20Fail {
+		// finding D17: the bundled client takes everything its single receive returns as the
+		// upgrade response; frames the server pushed right behind it are gone
+		if !q.Masked && len(q.Push) > 0 && c.upgradeCoalesced {
+			return &c20Fail{"push-swallowed-by-upgrade-response", f.msg + " [the 101 response and the first pushed frame reached the client before it ran: its single receive for the response consumed the frame too]"}
+		}
+		return f
+	}
 	if !c.pump(finished) {
-		return &c20Fail{"ws-stuck", name + ": the exchange never completed (world idle)"}
+		return swallowed(&c20Fail{"ws-stuck", name + ": the exchange never completed (world idle)"})
 	}
 	c.pump(func() bool { return false })
 	if fail != nil {
-		return fail
+		return swallowed(fail)
 	}
 	c20Mu.Lock()
 	got := c20WSGot
@@ -544,6 +683,9 @@ func c20Jobs(tier string) []string {
 		jobs = append(jobs, fmt.Sprintf("ws-len:u:%d/4", i), fmt.Sprintf("ws-len:m:%d/4", i))
 	}
 	jobs = append(jobs, "ws-big")
+	for i := 0; i < 16; i++ {
+		jobs = append(jobs, fmt.Sprintf("ws-sched:%d/16", i))
+	}
 	return jobs
 }
 
@@ -558,11 +700,23 @@ func c20Run(job, tier string, deadline time.Time) *engine.Result {
 		_ = runtime.NumGoroutine
 	}()
 	c := c20NewWorld()
-	defer c.close()
+	defer func() { c.close() }()
+	knownSeen := 0
 	report := func(f *c20Fail, replay interface{}) bool {
 		r.Execs++
 		r.Transitions++
 		r.Nontrivial++
+		if f != nil && engine.IsKnown("C20", f.key) {
+			if knownSeen < 1 {
+				r.Violations = append(r.Violations, engine.Violation{Property: "C20", Kind: "application", Key: f.key, Detail: f.msg, Job: job, Replay: engine.MustJSON(replay)})
+			}
+			knownSeen++
+			r.AddExtra("executions_hitting_a_known_finding", 1)
+			// the connection is stuck behind the swallowed frame: continue on a fresh world
+			func() { defer func() { recover() }(); c.close() }()
+			c = c20NewWorld()
+			return false
+		}
 		if f != nil && len(r.Violations) < 4 {
 			r.Violations = append(r.Violations, engine.Violation{Property: "C20", Kind: "application", Key: f.key, Detail: f.msg, Job: job, Replay: engine.MustJSON(replay)})
 		}
@@ -672,6 +826,50 @@ func c20Run(job, tier string, deadline time.Time) *engine.Result {
 			}
 		}
 		r.Sample(map[string]interface{}{"lengths": []int{200 * 1024, 300 * 1024}})
+	case "ws-sched":
+		// pacing of the two applications against the arrival of segments: every gate vector
+		// over {run at once, after 1 frame, after 2 frames, when idle} for the server's three
+		// reads, client gates {none, all idle}, frames delivered 1 / 2 / all at a time,
+		// pipelined or lock-step client, single- and multi-segment messages
+		var i, n int
+		fmt.Sscanf(parts[1], "%d/%d", &i, &n)
+		lenSets := [][]int{{300, 7}, {70000, 5}}
+		if tier == "thorough" {
+			lenSets = append(lenSets, []int{200 * 1024, 66000}, []int{0, 126})
+		}
+		modes := []int{0, 1, 2, -1}
+		k := 0
+		for _, lens := range lenSets {
+			for _, masked := range []bool{false, true} {
+				for _, pipe := range []bool{false, true} {
+					for _, burst := range []int{0, 2, -1} {
+						for _, cg := range [][]int{nil, {-1, -1, -1, -1}} {
+							for _, push := range [][]int{nil, {7, 130}} {
+								for g0 := range modes {
+									for g1 := range modes {
+										for g2 := range modes {
+											k++
+											if k%n != i {
+												continue
+											}
+											if time.Now().After(deadline) {
+												r.Exhaustive = false
+												return r
+											}
+											q := c20WS{Lens: lens, Push: push, Masked: masked, Key: 0x01020304, WSKey: "dGhlIHNhbXBsZSBub25jZQ==", Pipeline: pipe, Burst: burst, SGate: []int{modes[g0], modes[g1], modes[g2]}, CGate: cg}
+											if report(c.doWS(q), map[string]interface{}{"ws": q}) {
+												return r
+											}
+										}
+									}
+								}
+							}
+						}
+					}
+				}
+			}
+		}
+		r.Sample(map[string]interface{}{"pacing": "server gates {0,1,2,idle}^3 x client gates {none, idle} x burst {1,2,all} x pipelined {no,yes} x masked {no,yes} x pushes {none, 2}", "message_lengths": lenSets})
 	case "ws-seq":
 		menu := []int{0, 7, 126, 300}
 		for a := range menu {
